@@ -4,7 +4,7 @@ set -u
 diff=$1; shift
 cd /repo || exit 2
 if ! git diff --quiet || ! git diff --cached --quiet; then echo "/repo not clean"; exit 2; fi
-git apply -3 "$diff" >/dev/null 2>&1 || { echo "patch does not apply: $diff"; git checkout -q -- . ; git reset -q; exit 2; }
+git apply -3 "$diff" >/dev/null 2>&1 || { echo "patch does not apply: $diff"; git reset -q --hard HEAD; exit 2; }
 git reset -q
 cd /verif
 for pid in "$@"; do
